@@ -304,6 +304,19 @@ GROUPS = {
         nontrivial='histories with at least three sends',
         functions=['Clients::{register, unregister, send_packet}', 'Client::{try_send_packet, start_shutdown}'],
     ),
+    # second line behind the Verus unit relay_forward (C04), on the registry side
+    'relay_delivery_bx': dict(
+        unit='relay_registry.rs', props=['C04'],
+        bounds=dict(quick=['5', '4'], thorough=['6', '4']),
+        space='(second argument {1}: phase e) every history of at most {0} operations from 12 — connects of two connections of endpoint 1 and of peers 8 and 9, the close of '
+              'the second connection, the first connection\'s actor ending, draining either queue (capacity 3), packets 8->1, 9->1, 1->8, 8->9, each carrying its step number '
+              'as contents — and EVERY schedule of sender 8 sending two packets to endpoint 1 while (i) sender 9 sends two, (ii) a second connection of endpoint 1 takes over, '
+              '(iii) the active connection closes and an older one resumes; after every step / schedule: a packet shows up only in the queue of the addressed endpoint\'s '
+              'active connection, once, with its sender\'s id and contents, behind what was queued before. NOT covered here: the connection actor that writes the queue to '
+              'the socket (Verus unit relay_forward), ECN and segment size (the datagram batch is a shim carrying one byte)',
+        nontrivial='histories with at least two packets; all schedules',
+        functions=['Clients::{register, unregister, send_packet}', 'Client::try_send_packet'],
+    ),
     # second line behind the Verus unit hooks
     'hooks_bx': dict(
         unit='hooks.rs', props=['C42'],
@@ -474,6 +487,9 @@ def run_group(g, prop, tier='quick', only=None):
             p = subprocess.run(args, capture_output=True, text=True, timeout=3000)
         except subprocess.TimeoutExpired:
             res['reason'] = 'bounded run timed out'
+            return res
+        if p.returncode == 3 and 'HARNESS-STUCK' in p.stderr:
+            res['reason'] = 'the harness could not run the changed code: ' + p.stderr.strip().splitlines()[-1][:300]
             return res
         if p.returncode != 0:
             # a panic inside the function under test is itself a violation of "never panics"; report it as a failure
